@@ -3,6 +3,7 @@
 package main
 
 import (
+	"os"
 	"fmt"
 	"io"
 	"net"
@@ -85,6 +86,8 @@ type fragReader struct {
 	pos   int
 	frags []int
 	fi    int
+	// stream positions at which the read deadline expires once before more bytes arrive (a slow peer)
+	cuts map[int]bool
 }
 
 func (c *fragReader) Read(p []byte) (int, error) {
@@ -93,6 +96,10 @@ func (c *fragReader) Read(p []byte) (int, error) {
 	}
 	if len(p) == 0 {
 		return 0, nil
+	}
+	if c.cuts[c.pos] {
+		delete(c.cuts, c.pos)
+		return 0, os.ErrDeadlineExceeded
 	}
 	n := 1 << 30
 	if len(c.frags) > 0 {
@@ -107,6 +114,12 @@ func (c *fragReader) Read(p []byte) (int, error) {
 	}
 	if n > len(c.data)-c.pos {
 		n = len(c.data) - c.pos
+	}
+	for q := c.pos + 1; q < c.pos+n; q++ {
+		if c.cuts[q] {
+			n = q - c.pos // a fragment ends where the deadline expires
+			break
+		}
 	}
 	copy(p, c.data[c.pos:c.pos+n])
 	c.pos += n
@@ -229,9 +242,13 @@ type readResult struct {
 
 // runReader feeds stream to a real PeerReader (maxMsgSize = max) in the given fragments and
 // collects what it delivers until its run loop returns.
-func runReader(stream []byte, max int, frags []int) readResult {
+func runReader(stream []byte, max int, frags []int, cuts ...int) readResult {
 	lg := &errLogger{}
-	conn := &rconn{fragReader{data: stream, frags: frags}}
+	cm := map[int]bool{}
+	for _, c := range cuts {
+		cm[c] = true
+	}
+	conn := &rconn{fragReader{data: stream, frags: frags, cuts: cm}}
 	pr := peerreader.New(conn, lg, time.Minute, max, nil)
 	var res readResult
 	var ms0, ms1 runtime.MemStats
